@@ -294,7 +294,7 @@ def c10(proj, rep, tier):
     rep.floor('seed-accepting functions', nfun, 50)
     rep.floor('S2 nested seeded call sites', tot['S2'], 70)
     rep.floor('S4 generator draws', tot['S4'], 40)
-    n = hermitian.hm1(proj, rep, ['numqi.random._internal'])
+    n = hermitian.hm1(proj, rep, ['numqi.random._internal'] if tier == 'quick' else sorted(proj.modules))
     rep.floor('HM1 self-adjoint compositions in the random generators', n, 8)
     rep.assume('calls through user callables (model(), gate.forward, theta0 callables) are not followed: the claim is '
                '"no seed leak in numqi\'s own code on the resolved paths"')
@@ -328,9 +328,10 @@ def c18(proj, rep, tier):
     rep.floor('MS2 mask-guarded update blocks in the closed forms', n, 3)
     n = hermitian.pj1(proj, rep, ['numqi.entangle.upb', 'numqi.matrix_space._misc', 'numqi.matrix_space._geometric_measure', 'numqi.manifold._misc'])
     rep.floor('PJ1 complement-projector sites', n, 4)
-    n = kdefects.dt1(proj, rep, mods)
+    wide = mods if tier == 'quick' else sorted(proj.modules)
+    n = kdefects.dt1(proj, rep, wide)
     rep.floor('DT1 buffers typed after a parameter', n, 1)
-    n = kdefects.st1(proj, rep, mods)
+    n = kdefects.st1(proj, rep, wide)
     rep.floor('ST1 list-derived values', n, 2)
     n = ownership.o3(proj, rep, ['numqi.state._internal', 'numqi.entangle.upb', 'numqi.dicke'])
     rep.floor('O3 public constructors of numqi.state / entangle.upb', n, 20)
@@ -345,7 +346,8 @@ def c20(proj, rep, tier):
     rep.floor('T3 thresholds checked against the precision class (C20)', n, 3)
     n = gellmann.g5(proj, rep)
     rep.floor('G5 (basis, complement) return pairs', n, 7)
-    nf, ns = shapes.sh3(proj, rep, ['numqi.matrix_space._numerical_range', 'numqi.matrix_space._hierarchy', 'numqi.matrix_space._misc'])
+    nf, ns = shapes.sh3(proj, rep, ['numqi.matrix_space._numerical_range', 'numqi.matrix_space._hierarchy', 'numqi.matrix_space._misc']
+                        if tier == 'quick' else sorted(proj.modules))
     rep.floor('SH3 reshape sites whose axis roles are tracked (matrix_space)', ns, 3)
     nsite, ntyped = gellmann.g2(proj, rep, ['numqi.matrix_space._misc'])
     rep.floor('G2 projected synthesis sites in matrix_space._misc', ntyped, 2)
